@@ -232,16 +232,15 @@ func mutate(r *rng.R, s string) string {
 	return string(b)
 }
 
-func trMode(r *rng.R, n int, tmpdir string) {
-	os.Setenv("TMPDIR", tmpdir)
-	valid := []string{
+var trValid = []string{
 		`{"query":"{ name }"}`,
 		`{"query":"{ name }","variables":{"a":1},"operationName":null,"extensions":{}}`,
 		`{"query":"query Q($a: Any) { echo(v:$a) }","variables":{"a":[1,{"b":null}]},"operationName":"Q"}`,
 		`{"query":"subscription { name }"}`,
-		`{"query":"mutation { up }"}`,
-	}
-	directed := []string{
+	`{"query":"mutation { up }"}`,
+}
+
+var trDirected = []string{
 		`null`, ` null `, "null\n", `null{}`, `null "query":`, `null"query":"{ name }"`, `nulll`, `nul`, `{}`, `[]`, `""`, `0`, `true`, `[null]`,
 		`{"query":null}`, `{"query":"{ name }","variables":null}`, `{"query":"{ name }","variables":[]}`, `{"query":"{ name }","variables":"x"}`,
 		`{"query":"{ name }","extensions":null}`, `{"query":"{ name }","extensions":[]}`, `{"query":"{ name }"} trailing`, "\xff\xfe", ``, ` `,
@@ -251,8 +250,12 @@ func trMode(r *rng.R, n int, tmpdir string) {
 		`"query":`, `null "query":`, `query=%7Bname%7D`, `query=%7B%zz`, `query=%7B`, `query={name}`, `query={ name }`, `query=`, `{ name }`, `%7B%20name%20%7D`, `%7B%ZZ`, `%7B%`,
 		`query=%7Bname%7D&variables=null`, `query={name}&variables=null`, `query={name}&variables=[]`, `query={name}&variables={"a":1}`, `query={name}&variables={`,
 		`query={name}&extensions=null`, `query={name}&extensions=5`, `query=mutation{up}`, `query={name}&operationName=X`, `%zz`, `a;b`, `query=%`, `variables=null`, `&&&=`, `query`,
-		"--" + boundary + "--\r\n", "--" + boundary + "\r\n\r\nnull\r\n--" + boundary + "--\r\n",
-	}
+	"--" + boundary + "--\r\n", "--" + boundary + "\r\n\r\nnull\r\n--" + boundary + "--\r\n",
+}
+
+func trMode(r *rng.R, n int, tmpdir string) {
+	os.Setenv("TMPDIR", tmpdir)
+	valid, directed := trValid, trDirected
 	for _, s := range sites {
 		for i, b := range append(append([]string{}, valid...), directed...) {
 			trCase(tmpdir, s, b, fmt.Sprintf("directed-%d", i))
